@@ -383,7 +383,26 @@ def run(ctx):
     have_model = not (model and model[0] == cc.NO_MODEL)
     dist = {}
     stats = dict(ok_z=0, ok_nz=0, err_z=0, err_nz=0, accept_differs=0, model_oob=0)
-    incident_text = {v: {k: e for (k, _, e) in incidents[v]} for v in incidents}
+    incident_text = {v: {k: e for (k, kind, e) in incidents[v] if kind != "MEMORY"} for v in incidents}
+    # allocation balance (sc_memory_status of the libsc and the default package) over every single call
+    for v in incidents:
+        for (k, kind, e) in incidents[v]:
+            if kind != "MEMORY":
+                continue
+            if k < nd:
+                c = dcases[k]
+                robj = dict(op="dec", line=c["line"], text=cc.hx(c["text"]), kind=list(c["kind"]), maxsz=c["maxsz"], tag=c["tag"], variant=v, impl=(outs[v][k] or "")[:200])
+                what = "sc_io_decode"
+                tag = c["tag"]
+            elif k < nd + ni:
+                robj = dict(op="info", line=alllines[k][:4000], variant=v)
+                what, tag = "sc_io_decode_info", "info"
+            else:
+                c = pcases[k - nd - ni]
+                robj = dict(op="puff", line=c["line"], src=cc.hx(c["src"]), nil=c["nil"], destlen=c["destlen"], sourcelen=c["sourcelen"], tag=c["tag"], variant=v)
+                what, tag = "sc_puff", "puff:" + c["tag"]
+            ctx.violation("memory-balance:%s:%s" % (tag, v), "%s (%s build) returned %s and left the allocation balance changed: %s | case: %s" % (
+                what, v, (outs[v][k] or "")[:30], e, alllines[k][:120]), robj)
 
     def report(key, msg, robj, known_key=None):
         ctx.violation(known_key or key, msg, robj)
